@@ -8,11 +8,11 @@ def run(ck):
     def extra(rng):
         # registry concurrency family on the shadow-Spinlock build
         out = []
-        for i in range(40 if ck.tier == "quick" else 800):
+        for i in range(200 if ck.tier == "quick" else 2000):
             sc, g = sysfam.c17reg(rng, "UBS:4096:16384")
             out.append((f"c17reg-{i}", "UBS:4096:16384", sc, g))
         return out
-    sysfam.run_family(ck, "C17", 60 if ck.tier == "quick" else 1500, extra)
+    sysfam.run_family(ck, "C17", 300 if ck.tier == "quick" else 3000, extra)
 
 
 def replay(ck, path):
